@@ -107,10 +107,22 @@ def build_and_audit(prop: str, mod, tier: str):
     rc, out = sh(["python3", os.path.join(VERIF, "tools", "gen_consts.py")])
     info["gen_consts"] = out.strip().split("\n")[-1] if out.strip() else ""
     if rc != 0:
-        broken.append({"kind": "regeneration", "what": "tools/gen_consts.py could not read the expected source shape", "detail": out[-2000:]})
+        broken.append({"kind": "regeneration", "what": "tools/gen_consts.py crashed", "detail": out[-2000:]})
     mods = list(mod.LEAN_MODULES)
     if tier == "thorough":
         mods += list(getattr(mod, "LEAN_MODULES_THOROUGH", []))
+    # generated files an extractor could not re-derive from the current source (filled from the recorded baseline): for the
+    # properties that import them this is a weakened tie, answered by an enlarged correspondence run, not an alarm by itself
+    try:
+        st = json.load(open(os.path.join(WORK, "gen_status.json"))).get("stale", {})
+    except Exception:  # noqa: BLE001
+        st = {}
+    deps = gen_deps(mods + [DRIVER_ROOTS.get(d, "") for d in getattr(mod, "DRIVERS", ["driver"])])
+    info["stale_constants"] = {k: v for k, v in st.items() if "Demeter.Gen." + k[:-5] in deps}
+    if info["stale_constants"]:
+        STALE.update(info["stale_constants"])
+        print("check: constants could not be re-extracted from the current source and are taken from the recorded baseline ("
+              + "; ".join(f"{k}: {v[:90]}" for k, v in info["stale_constants"].items()) + "): enlarged search budget")
     with Lock():
         rc_d, out_d = sh(["lake", "build"] + list(getattr(mod, "DRIVERS", ["driver"])), cwd=LEAN_DIR, timeout=3000)
         driver_ok = rc_d == 0
@@ -214,8 +226,55 @@ def write_replay(prop, payload) -> str:
     return rel
 
 
+DRIVER_ROOTS = {"driver": "Driver", "driver_aave": "DriverAave", "driver_deribit": "DriverDeribit", "driver_squeeth": "DriverSqueeth",
+                "driver_gmx": "DriverGmx", "driver_core": "DriverCore", "driver_metrics": "DriverMetrics", "driver_aaverisk": "DriverAaverisk",
+                "driver_tick": "DriverTick", "driver_broker": "DriverBroker"}
+STALE = {}
+
+
+def gen_deps(mods):
+    """the Demeter.Gen.* modules that the given Lean modules import, transitively (within lean/)"""
+    seen, todo, gen = set(), [m for m in mods if m], set()
+    while todo:
+        m = todo.pop()
+        if m in seen:
+            continue
+        seen.add(m)
+        if m.startswith("Demeter.Gen."):
+            gen.add(m)
+        p = module_path(m)
+        if not os.path.exists(p):
+            continue
+        for imp in re.findall(r"^import\s+(\S+)", open(p).read(), re.M):
+            if imp.split(".")[0] in ("Demeter", "Proofs") or imp in DRIVER_ROOTS.values():
+                todo.append(imp)
+    return gen
+
+
+COMMON_SOURCES = ("demeter/_typing.py", "demeter/utils/", "demeter/broker/", "demeter/__init__.py")
+
+
+def changed_sources(prop):
+    """files anchoring this property (properties.jsonl) or shared by all markets whose AST differs from source_fingerprints.json"""
+    try:
+        sys.path.insert(0, os.path.join(VERIF, "tools"))
+        import fingerprint
+        ch = fingerprint.changed(REPO)
+        anchors = []
+        for l in open(os.path.join(VERIF, "properties.jsonl")):
+            pr = json.loads(l)
+            if pr["id"] == prop:
+                anchors = pr["anchors"].get("files", [])
+        return [f for f in ch if f in anchors or f.startswith(COMMON_SOURCES)]
+    except Exception:  # noqa: BLE001
+        return []
+
+
+BOOST = []
+
+
 def run_harness(mod, prop, tier, seed, driver_ok, search):
-    ctx = Ctx(prop, tier, seed, driver_ok, search)
+    ctx = Ctx(prop, tier, seed, driver_ok, search, boost=bool(BOOST) or bool(STALE))
     mod.run(ctx)
     return ctx
 
@@ -251,6 +310,9 @@ def main():
         print(f"replay {args.replay}: property {'HOLDS' if verdict else 'FAILS'} on this case")
         return 0 if verdict else 1
 
+    BOOST[:] = changed_sources(prop)
+    if BOOST:
+        print(f"check: {len(BOOST)} anchored source file(s) differ from the recorded fingerprint ({', '.join(BOOST[:4])}): enlarged search budget")
     try:
         broken, info, driver_ok = build_and_audit(prop, mod, args.tier)
     except subprocess.TimeoutExpired as e:
@@ -334,6 +396,8 @@ def main():
         "exact_vs_impl_max_rel_dev": common.fmt(ctx.max_dev) if ctx.max_dev else "0",
         "notes": jsonable(ctx.notes),
         "gen_consts": info.get("gen_consts"),
+        "source_changed_since_fingerprint": list(BOOST),
+        "stale_generated_constants": dict(STALE),
     }
     for k in ("pending_thorough_only", "leanchecker"):
         if k in info:
